@@ -601,7 +601,9 @@ class FormatParser(object):
         i = 0
         setI = False
         c = self.getChar()
-        while c.isdigit():
+        # Only ASCII digits: str.isdigit() also accepts digits that are not
+        # part of a color code, some of which (eg. '\xb2') int() rejects.
+        while c and c in '0123456789':
             j = i * 10
             j += int(c)
             if j >= 16:
